@@ -239,6 +239,17 @@ def run_case(socketutil, errors, case):
             tr["data"] = u if u is not None else [-9]
         else:
             payload = b"".join(block(i, B) for i in range(n))
+            # the buffer is handed over as bytes, as a bytearray, as a view of bytes or - where its length allows - as a view of
+            # items wider than a byte
+            ROT[0] += 1
+            form = ROT[0] % 4
+            if form == 1:
+                payload = bytearray(payload)
+            elif form == 2:
+                payload = memoryview(payload)
+            elif form == 3 and len(payload) % 2 == 0 and payload:
+                import array
+                payload = memoryview(array.array("H", payload))
             socketutil.send_data(sock, payload)
             tr["outcome"] = "return"
     except Hang:
